@@ -761,6 +761,11 @@ class Engine:
         try:
             return list(spec.invariant(self, st, idx))
         except (KeyError, AttributeError, IndexError, TypeError) as e:
+            if isinstance(e, KeyError) and e.args and isinstance(e.args[0], str) and e.args[0] not in st.env:
+                pin = extract.pinned_locals().get(self.cur.qualname, {}).get("locals", [])
+                if e.args[0] in pin or e.args[0] in self.cur.params or e.args[0].startswith("_"):
+                    raise  # the sidecar names a local / private attribute the code no longer has: the contract needs updating
+                    # (a checker error, exit 3 - never a verdict about the property)
             self.abandoned = getattr(self, "abandoned", 0) + 1
             self.shape_failed = True  # the caller abandons this path: the havocked head state cannot be built either
             return [("state_the_invariant_describes_exists", z3.BoolVal(False))]
@@ -1250,6 +1255,13 @@ class Engine:
         q = f"{obj.cls}.__setattr__"
         if not plain and q in extract.functions():
             return self.call_qual(q, st, o, [name, v], {}, None)
+        # object.__setattr__ honours data descriptors of the class: a property without a setter refuses the store
+        nm = norm(name)
+        desc = getattr(getattr(obj, "pycls", None), nm, None) if isinstance(nm, str) else None
+        if isinstance(desc, property):
+            if desc.fset is None:
+                return [(st, RaiseExc(AttributeError, f"property '{nm}' has no setter"))]
+            raise EngineUnsupported(f"store through property setter {nm}")
         self.raw_store(st, o, name, v)
         return [(st, None)]
 
